@@ -35,6 +35,37 @@ Verdicts
                     documented thresholds (1e-5; Settings atol for the built-in
                     equality); results are genuine or have their stored variable
                     vectors overwritten by the monitor.
+
+History / combination steps (the oracles are the ones above; keys that only a
+history step can produce end with a suffix naming it)
+* options           loss-minimisation cases draw non-default loss options (custom
+                    weights) and algorithm options (gamma, mu, mode_proj_order) next to
+                    the non-default mode_proj_order of the projected linear estimator:
+                    every stored / copied / pickled / re-used setting must keep them
+* flow              the in-process repetition is ONE call over two test settings of
+                    the same shape (this case's test-setting OBJECT, used by the
+                    baseline run before or afterwards, and a rival with another true
+                    object, noise, seeds and option values, half of the time sharing
+                    the loss / algorithm objects); this case's part must equal the
+                    baseline ("...:re-used-setting-object+other-setting-in-same-call");
+                    a plain repetition (fresh objects, alone) is run only when that
+                    fails or cannot be run, to tell the two apart.  Re-estimation uses
+                    the results / files of either run (test_setting_index 0 or 1).
+                    After the child and all worker schedules the results handed out
+                    first are digested again ("returned-results-changed-by-later-runs")
+                    and re-estimated / re-loaded once more (":after-later-runs")
+* single setting    a rival setting of the same shape is run in between; the
+                    repetition uses the same tomography object with the RIVAL's used
+                    loss / algorithm objects and this setting's own options
+                    (":re-used-objects"), or the setting stored in the first result
+                    (":via-stored-setting"), or setting.copy() (":via-copy"); the first
+                    result is digested again at the end
+                    ("returned-result-changed-by-later-run")
+* physicality check the same check object is asked a second time (show_detail varied)
+* noise             a second generation setting of the same class / size generates in
+                    between and the first is asked again; a fresh random-Lindbladian
+                    setting with the same parameters and seed must give the same object
+                    (":fresh-setting-object-after-other-setting", ":re-used-object-...")
 """
 import contextlib
 import hashlib
@@ -64,7 +95,13 @@ RULE = ("flow settings: unknown type (state, povm, gate, mprocess on 1 qubit; st
         "whose stored variable vectors were overwritten with clean interior points plus one vector violating eq or ineq by "
         "delta in {0.09 thr, 11 thr, 1e-2} at a random (repetition, data size) (last data size in half of the cases). "
         "A case is distinct by its rounded setting / parameters and non-trivial when it is run under >1 worker, or repeated, "
-        "or uses an int seed, or a boundary rate/strength, or a tampered result")
+        "or uses an int seed, or a boundary rate/strength, or a tampered result. History / combination: loss-minimisation "
+        "cases draw non-default loss options (custom weights) and algorithm options (gamma, mu, mode_proj_order); the "
+        "in-process repetition of a flow is one call over two test settings of the same shape (this case's used test-setting "
+        "object at index 0 or 1, rival before or after the baseline, helper objects shared in half of the cases); stored "
+        "results are re-digested, re-estimated and re-loaded after all later runs; single settings are repeated with the "
+        "tomography and helper objects a rival run has used, or through the stored setting / copy(); check objects and "
+        "generation settings are asked again after another object of the same class and size")
 _S = "quara/simulation/standard_qtomography_simulation.py:"
 _F = "quara/simulation/standard_qtomography_simulation_flow.py:"
 _D = "quara/simulation/depolarized_qoperation_generation_setting.py:DepolarizedQOperationGenerationSetting."
@@ -211,13 +248,24 @@ COMP_NAME = {"order": "result-order", "true": "true-object", "testers": "tester-
              "est": "estimates", "check": "check-result"}
 
 
-def compare_records(ctx, oracle, keyprefix, base, other, info=None):
+def records_equal(base, other):
+    return len(base) == len(other) and all(b["idx"] == o["idx"] and b["name"] == o["name"] and all(b[c] == o[c] for c in COMPONENTS)
+                                           for b, o in zip(base, other))
+
+
+def part_of(records, tsi):
+    """records of test setting `tsi` of a run over several test settings, re-indexed as if it had been run alone"""
+    return [dict(r, idx=[0] + list(r["idx"][1:])) for r in records if r["idx"] is not None and r["idx"][0] == tsi]
+
+
+def compare_records(ctx, oracle, keyprefix, base, other, info=None, suffix=""):
     """component-wise comparison in causal order; only the most upstream
-    differing component of a result is reported (the rest follows from it)."""
+    differing component of a result is reported (the rest follows from it).
+    `suffix` names the history step whose run is compared (keys end with it)."""
     info = dict(info or {})
     ok = len(base) == len(other) and [b["idx"] for b in base] == [o["idx"] for o in other] and \
         [b["name"] for b in base] == [o["name"] for o in other]
-    ctx.truth(oracle, ok, key=f"{keyprefix}:{COMP_NAME['order']}-differs",
+    ctx.truth(oracle, ok, key=f"{keyprefix}:{COMP_NAME['order']}-differs{suffix}",
               info=dict(info, base=[b["idx"] for b in base], other=[o["idx"] for o in other]))
     if not ok:
         return False
@@ -229,7 +277,7 @@ def compare_records(ctx, oracle, keyprefix, base, other, info=None):
                 ctx.skip(oracle)
                 continue
             same = b[c] == o[c]
-            ctx.truth(oracle, same, key=f"{keyprefix}:{COMP_NAME[c]}-differ",
+            ctx.truth(oracle, same, key=f"{keyprefix}:{COMP_NAME[c]}-differ{suffix}",
                       info=dict(info, result=b["idx"], case_name=b["name"], base=b[c], other=o[c]))
             if not same:
                 broken = True
@@ -598,7 +646,43 @@ def shape_csys(shape):
     return generate_composite_system("qubit" if shape == "S1" else "qutrit", 1)
 
 
-def make_case(c):
+# (number of schedules, outcomes per schedule) of the standard tomography of each unknown: shapes of custom loss weights
+WSHAPE = {("state", "S1"): (3, 2), ("povm", "S1"): (4, 2), ("gate", "S1"): (12, 2), ("mprocess", "S1"): (12, 4),
+          ("state", "S3"): (7, 3)}
+
+
+def draw_options(c, rng, p=0.6):
+    """non-default options of the loss option and of the algorithm option of a loss-minimisation case (history /
+    combination step: every stored, copied, pickled or re-used setting has to keep them).  JSON-able."""
+    if c["est"] not in ("lsq", "mle") or c.get("flags") == "none":
+        return c
+    if rng.random() < p:
+        c["lw"] = int(rng.integers(1, 2 ** 31 - 1))  # seed of custom loss weights
+    ao = {}
+    if rng.random() < p:
+        ao["gamma"] = float(rng.choice([0.25, 0.4, 0.5]))
+    if rng.random() < p:
+        ao["mu"] = float(rng.choice([0.5, 0.7, 1.1]))
+    if rng.random() < p:
+        ao["mode_proj_order"] = "ineq_eq"
+    if ao:
+        c["ao"] = ao
+    return c
+
+
+def loss_weights(est, wshape, wseed):
+    n_sched, n_out = wshape
+    g = np.random.default_rng(int(wseed))
+    if est == "mle":
+        return [float(x) for x in g.uniform(0.5, 2.0, size=n_sched)]
+    out = []
+    for _ in range(n_sched):
+        v = g.uniform(-1.0, 1.0, size=n_out)
+        out.append(np.diag(g.uniform(0.5, 2.0, size=n_out)) + 0.2 * np.outer(v, v))  # symmetric positive definite
+    return out
+
+
+def make_case(c, wshape=None):
     """(name, estimator, para, (loss, loss_option), (algo, algo_option)) of a case spec"""
     from quara.loss_function.standard_qtomography_based_weighted_probability_based_squared_error import (
         StandardQTomographyBasedWeightedProbabilityBasedSquaredError as SE,
@@ -628,8 +712,16 @@ def make_case(c):
     else:
         ao = PGDBO(on_algo_eq_constraint=flags[0] == "1", on_algo_ineq_constraint=flags[1] == "1",
                    mode_stopping_criterion_gradient_descent="sum_absolute_difference_variable",
-                   num_history_stopping_criterion_gradient_descent=1, eps=1e-7)
-    loss = (RE(), REO("identity")) if e == "mle" else (SE(), SEO("identity"))
+                   num_history_stopping_criterion_gradient_descent=1, eps=1e-7, **dict(c.get("ao") or {}))
+        if c.get("ao"):
+            name += "[ao:" + ",".join(sorted(c["ao"])) + "]"
+    LO = REO if e == "mle" else SEO
+    if c.get("lw") is not None and wshape is not None:
+        lo = LO("custom", weights=loss_weights(e, wshape, c["lw"]), weight_name="qv-custom")
+        name += "[w]"
+    else:
+        lo = LO("identity")
+    loss = (RE(), lo) if e == "mle" else (SE(), lo)
     return name, LossMinimizationEstimator(), para, loss, (PGDB(), ao)
 
 
@@ -639,11 +731,15 @@ def noise_setting(base, ns):
     return NoiseSetting(qoperation_base=tuple(base), method=ns["method"], para=ns["para"])
 
 
-def build_test_setting(spec):
+def build_test_setting(spec, share=None):
+    """`share`: a test setting of the same estimator cases whose loss and algorithm OBJECTS (not the options) are put
+    into the new one as well (the usual way of writing several test settings: one list of helper objects)"""
     from quara.simulation.standard_qtomography_simulation import EstimatorTestSetting
 
     c_sys = shape_csys(spec["shape"])
-    cases = [make_case(c) for c in spec["cases"]]
+    cases = [make_case(c, WSHAPE.get((spec["type"], spec["shape"]))) for c in spec["cases"]]
+    if share is not None:
+        cases = [(c[0], c[1], c[2], (share.loss_list[j][0], c[3][1]), (share.algo_list[j][0], c[4][1])) for j, c in enumerate(cases)]
     return EstimatorTestSetting(
         true_object=noise_setting((spec["type"], spec["true"]), spec["noise_true"]),
         tester_objects=[noise_setting(b, ns) for b, ns in zip(spec["testers"], spec["noise_testers"])],
@@ -705,6 +801,7 @@ def flow_spec(t, rng, tier, shape="S1", noise="depolarized", light=False):
     heavy = t in ("gate", "mprocess")
     n_rep = int(rng.integers(2, 4)) if heavy or light else int(rng.integers(2, 7))
     names = TRUE_NAMES[(t, shape)]
+    cases = [draw_options(c, rng) for c in cases]
     return {
         "type": t, "shape": shape, "true": names[int(rng.integers(0, len(names)))], "testers": [list(x) for x in testers],
         "noise_true": n_true, "noise_testers": n_test, "noise_class": cls,
@@ -749,6 +846,43 @@ def run_flow(spec, pm, root):
     with quiet():
         results = flow.execute_simulation_test_settings([ts], root, pdf_mode="none", parallel_mode=None if pm is None else dict(pm))
     return ts, results
+
+
+def run_flow_objects(tss, pm, root):
+    """the flow over given (possibly already used) test-setting objects"""
+    import quara.simulation.standard_qtomography_simulation_flow as flow
+
+    with quiet():
+        return flow.execute_simulation_test_settings(list(tss), root, pdf_mode="none", parallel_mode=None if pm is None else dict(pm))
+
+
+def rival_spec(spec, hr):
+    """another setting of the SAME shape (unknown type, testers, estimator cases, data sizes) with another true object,
+    other noise parameters, seeds and option values; one sample, two repetitions (cheap)"""
+    r = json.loads(json.dumps(spec))
+    names = TRUE_NAMES[(spec["type"], spec["shape"])]
+    others = [n for n in names if n != spec["true"]] or names
+    r["true"] = others[int(hr.integers(0, len(others)))]
+
+    def renoise(ns):
+        if ns["method"] == "depolarized":
+            return dep_noise(hr, 0.02, 0.5)
+        if ns["method"] == "random_effective_lindbladian":
+            return rl_noise(hr)
+        return ns
+
+    r["noise_true"] = renoise(r["noise_true"])
+    r["noise_testers"] = [renoise(x) for x in r["noise_testers"]]
+    r["seed_data"], r["seed_qoperation"] = pick_seed(hr), pick_seed(hr)
+    r["n_sample"], r["n_rep"] = 1, 2
+    cases = []
+    for c in r["cases"]:
+        c = {k: v for k, v in c.items() if k not in ("lw", "ao")}
+        if c["est"] == "plin" and c.get("order"):
+            c["order"] = "eq_ineq" if c["order"] == "ineq_eq" else "ineq_eq"
+        cases.append(draw_options(c, hr))
+    r["cases"] = cases
+    return r
 
 
 def _where():
@@ -800,15 +934,41 @@ def group_rng(ctx, group, case):
     return np.random.default_rng(np.random.SeedSequence([ctx.seed, 15, zlib.crc32(group.encode()), int(case)]))
 
 
-def reestimate_checks(ctx, ts, results, root, n_jobs_list=(1,), pick=0):
+def reestimate_checks(ctx, ts, results, root, n_jobs_list=(1,), pick=0, later=False):
+    """`later`: the short second pass on the SAME result objects / files after all the later runs of the case (one
+    sample: re_estimate of another repetition, the stored files read again); keys end with ':after-later-runs'"""
     import quara.simulation.standard_qtomography_simulation as sim
 
     pick0 = pick
+    suf = ":after-later-runs" if later else ""
     for r in results:
         pick += 1
         stored = record_of(r)["est"]
         case_index = r.result_index["case_index"]
         cname = r.simulation_setting.name.split("(")[0]
+        if later:
+            ri = r.result_index
+            if ri["sample_index"] != pick0 % ts.n_sample:
+                continue
+            k = pick % len(r.estimation_results)
+            with quiet():
+                ok, er = ctx.attempt(sim.re_estimate, ts, r, k)
+            if ok:
+                h = hashlib.blake2b(digest_size=8)
+                for v in er.estimated_var_sequence:
+                    h.update(_ab(v))
+                ctx.truth("re-estimate", h.hexdigest() == stored[k], key=f"re_estimate:{cname}:estimates-differ-from-stored{suf}",
+                          info={"case": r.simulation_setting.name})
+            else:
+                ctx.violation(f"re_estimate:{cname}:" + ctx.exc_key(er) + suf, {})
+            with quiet():
+                ok, loaded = ctx.attempt(sim.load_simulation_results, root, ri["test_setting_index"], ri["sample_index"], ri["case_index"])
+            if ok and len(loaded) == 1:
+                compare_records(ctx, "re-estimate", "load_simulation_results:stored-vs-returned", [record_of(r)], [record_of(loaded[0])],
+                                suffix=suf)
+            elif not ok:
+                ctx.violation("load_simulation_results:" + ctx.exc_key(loaded) + suf, {})
+            continue
 
         def est_digest(er):
             h = hashlib.blake2b(digest_size=8)
@@ -905,17 +1065,66 @@ def shard_flow(ctx, mon):
             mon.flow_noise = cls
             kp = f"flow:noise={cls}"
             mixed = "+" in noise
-            # ---------------- serial baseline, twice in this process
+            # ---------------- history plan of the case (own stream: the setting itself is what it was without it)
+            hr = np.random.default_rng(np.random.SeedSequence([ctx.seed, 15, zlib.crc32(p["group"].encode()), int(i), 77]))
+            rspec = rival_spec(spec, hr)
+            rival_first = bool(hr.random() < 0.5)   # the rival runs before / after the baseline
+            pos = int(hr.integers(0, 2))             # index of this case's test setting in the two-setting run
+            reest_from_combined = bool(hr.random() < 0.5)
+            HSUF = ":re-used-setting-object+other-setting-in-same-call"
+            def build_both():
+                ts_ = build_test_setting(spec)
+                return ts_, build_test_setting(rspec, share=ts_ if share_helpers else None)
+
+            share_helpers = bool(hr.random() < 0.5)
+            ok, val = ctx.attempt(build_both)
+            if not ok:
+                ctx.count(f"flow_serial_exception[{cls}]:{type(val).__name__}")
+                ctx.note(f"test setting could not be built for noise={cls}: {ctx.exc_key(val)}: {str(val)[:200]}")
+                if not mixed:
+                    ctx.mark_inconclusive(f"building a standard test setting raised: {ctx.exc_key(val)}: {str(val)[:300]}")
+                continue
+            ts, ts_rival = val
+            tss = [ts_rival, ts] if pos == 1 else [ts, ts_rival]
+            specs2 = [rspec, spec] if pos == 1 else [spec, rspec]
+
+            def combined_run(root):
+                """ONE call over two test settings of the same shape; this case's setting object is the one of the
+                baseline run (used before or afterwards).  Returns (all results, records of this case's part)."""
+                ok_, val_ = ctx.attempt(run_flow_objects, tss, None, root)
+                if not ok_:
+                    ctx.count(f"flow_combined_exception[{cls}]:{type(val_).__name__}")
+                    if not mixed:
+                        # a violation only when the rival runs alone (fresh objects); this case's setting alone is run below
+                        rr = scratch.new()
+                        ok2, val2 = ctx.attempt(run_flow, rspec, None, rr)
+                        scratch.drop(rr)
+                        if ok2:
+                            ctx.violation(f"{kp}:two-test-settings-in-one-call:" + ctx.exc_key(val_), {"message": str(val_)[:300]})
+                        else:
+                            ctx.note(f"rival setting raised on its own: {ctx.exc_key(val2)}: {str(val2)[:200]}")
+                    return None, None
+                recs = [record_of(r) for r in val_]
+                want = [[j, s_, c_] for j, sp in enumerate(specs2) for s_ in range(sp["n_sample"]) for c_ in range(len(sp["cases"]))]
+                ctx.truth("flow.order", [b["idx"] for b in recs] == want, key=f"{kp}:serial:results-not-in-submission-order:two-test-settings",
+                          info={"got": [b["idx"] for b in recs]})
+                ctx.count("flow_runs_two_test_settings")
+                return val_, part_of(recs, pos)
+
+            rootc = scratch.new()
+            resc, partc = combined_run(rootc) if rival_first else (None, None)
+            # ---------------- serial baseline
             root0 = scratch.new()
-            ok, val = ctx.attempt(run_flow, spec, None, root0)
+            ok, val = ctx.attempt(run_flow_objects, [ts], None, root0)
             if not ok:
                 scratch.drop(root0)
+                scratch.drop(rootc)
                 ctx.count(f"flow_serial_exception[{cls}]:{type(val).__name__}")
                 ctx.note(f"serial flow raised for noise={cls}: {ctx.exc_key(val)}: {str(val)[:200]}")
                 if not mixed:
                     ctx.mark_inconclusive(f"serial flow raised on a standard setting: {ctx.exc_key(val)}: {str(val)[:300]}")
                 continue
-            ts, res0 = val
+            res0 = val
             base = [record_of(r) for r in res0]
             expected_idx = [[0, s, c] for s in range(spec["n_sample"]) for c in range(len(spec["cases"]))]
             ctx.truth("flow.order", [b["idx"] for b in base] == expected_idx, key=f"{kp}:serial:results-not-in-submission-order",
@@ -925,23 +1134,58 @@ def shard_flow(ctx, mon):
             if i < 1:
                 ctx.sample({"kind": "flow", "spec": {kk: spec[kk] for kk in ("type", "true", "noise_class", "seed_data", "seed_qoperation",
                                                                               "n_sample", "n_rep", "num_data")},
-                            "cases": [c["est"] + ("T" if c["para"] else "F") for c in spec["cases"]], "workers": k,
+                            "cases": [c["est"] + ("T" if c["para"] else "F") + ("+w" if c.get("lw") else "") +
+                                      ("+" + ",".join(sorted(c["ao"])) if c.get("ao") else "") for c in spec["cases"]], "workers": k,
+                            "history": {"rival_first": rival_first, "position_in_two_setting_run": pos},
                             "record0": {kk: base[0][kk] for kk in ("idx", "true", "empi", "est")}})
-            root1 = scratch.new()
-            ok, val = ctx.attempt(run_flow, spec, None, root1)
-            scratch.drop(root1)
-            if ok:
-                compare_records(ctx, "flow.repeat", f"{kp}:repeat-same-process", base, [record_of(r) for r in val[1]])
+            # ---------------- repeated in this process: the SAME test-setting object (its estimator / loss / algorithm /
+            # option objects have been used by the other run), in one call together with a rival setting of the same shape
+            if not rival_first:
+                resc, partc = combined_run(rootc)
+                # the results handed out by the baseline run must not be touched by the next call
+                now = [record_of(r) for r in res0]
+                ctx.truth("flow.repeat", records_equal(base, now), key=f"{kp}:returned-results-changed-by-later-runs",
+                          info={"after": "two-test-setting run", "n_before": len(base), "n_now": len(now)})
+            plain = partc is None or not records_equal(base, partc)
+            if plain:
+                # no history run, or it differs: a plain repetition (fresh objects, alone) tells a history fault from
+                # plain irreproducibility
+                root1 = scratch.new()
+                ok, val = ctx.attempt(run_flow, spec, None, root1)
+                scratch.drop(root1)
+                if ok:
+                    plain_recs = [record_of(r) for r in val[1]]
+                    # rival first: the baseline is the run with a history; when the plain run agrees with the two-setting run
+                    # the baseline is the odd one and the key says so
+                    odd_base = rival_first and partc is not None and records_equal(plain_recs, partc)
+                    plain_ok = compare_records(ctx, "flow.repeat", f"{kp}:repeat-same-process", base, plain_recs,
+                                               suffix=HSUF if odd_base else "")
+                else:
+                    plain_ok = False
+                    ctx.violation(f"{kp}:repeat-same-process:" + ctx.exc_key(val), {})
+                if partc is not None and plain_ok:
+                    compare_records(ctx, "flow.repeat", f"{kp}:repeat-same-process", base, partc, suffix=HSUF,
+                                    info={"rival_first": rival_first, "position": pos})
             else:
-                ctx.violation(f"{kp}:repeat-same-process:" + ctx.exc_key(val), {})
+                compare_records(ctx, "flow.repeat", f"{kp}:repeat-same-process", base, partc, suffix=HSUF)
+                ctx.nontrivial("flow", t, spec["true"], spec["noise_true"], spec["seed_data"], spec["seed_qoperation"], spec["n_rep"],
+                               spec["num_data"], "two-settings", rival_first, pos)
             if mixed:
                 scratch.drop(root0)
+                scratch.drop(rootc)
                 continue
             records_out[f"{p['group']}/{i}"] = {"spec": _hx(json.dumps(spec, sort_keys=True).encode()), "base": base, "case": i, "noise_class": cls}
-            # ---------------- re-estimation from the stored empirical distributions
+            # ---------------- re-estimation from the stored empirical distributions (of the run alone, or of this
+            # case's part of the two-setting run: test_setting_index = pos there)
+            use_c = reest_from_combined and resc is not None and not plain
+            src_res = [r for r in resc if r.result_index["test_setting_index"] == pos] if use_c else res0
+            src_root = rootc if use_c else root0
             if p.get("reest", True):
-                reestimate_checks(ctx, ts, res0, root0, n_jobs_list=(k,) if (workers_ok and k > 1) else (1,), pick=i)
-            scratch.drop(root0)
+                reestimate_checks(ctx, ts, src_res, src_root, n_jobs_list=(k,) if (workers_ok and k > 1) else (1,), pick=i)
+            if not use_c:
+                scratch.drop(rootc)
+            else:
+                scratch.drop(root0)
             # ---------------- fresh process
             if p.get("fresh"):
                 recs, why = child_serial_records(spec, scratch)
@@ -971,6 +1215,13 @@ def shard_flow(ctx, mon):
                                        spec["n_rep"], spec["num_data"], lname, k)
                         compare_records(ctx, "flow.schedule", f"{kp}:schedule:{lname}", base, [record_of(r) for r in val[1]],
                                         info={"workers": k, "parallel_mode": pm})
+            # ---------------- the results handed out earlier, asked again after all the later runs
+            now = [record_of(r) for r in res0]
+            ctx.truth("flow.repeat", records_equal(base, now), key=f"{kp}:returned-results-changed-by-later-runs",
+                      info={"changed": [b["idx"] for b, n_ in zip(base, now) if b != n_]})
+            if p.get("reest", True):
+                reestimate_checks(ctx, ts, src_res, src_root, pick=i + 1, later=True)
+            scratch.drop(src_root)
     finally:
         shutdown_workers()
         scratch.close()
@@ -999,7 +1250,7 @@ SEED_KINDS = ["int-arg", "int-setting", "generator-mt", "generator-pcg", "none",
 def make_sim_setting(spec, case, tr, tes, seed_data):
     from quara.simulation.standard_qtomography_simulation import StandardQTomographySimulationSetting
 
-    name, est, para, loss, algo = make_case(case)
+    name, est, para, loss, algo = make_case(case, WSHAPE.get((spec["type"], spec["shape"])))
     ss = StandardQTomographySimulationSetting(
         name=name, true_object=tr, tester_objects=tes, estimator=est, seed_data=seed_data, n_rep=spec["n_rep"],
         num_data=list(spec["num_data"]), schedules="all", eps_proj_physical=spec["eps_proj"],
@@ -1007,13 +1258,20 @@ def make_sim_setting(spec, case, tr, tes, seed_data):
     return ss, para
 
 
-def run_single(spec, case, tr, tes, kind, seed, init_with_seed):
+def prepare_single(spec, case, tr, tes, kind, seed, init_with_seed):
     import quara.simulation.standard_qtomography_simulation as sim
 
     seed_data = seed if kind == "int-setting" else (None if kind == "none" else int(seed) + 1)
     ss, para = make_sim_setting(spec, case, tr, tes, seed_data)
     with quiet():
         qt = sim.generate_qtomography(ss, para=para, init_with_seed=init_with_seed and seed_data is not None)
+    return ss, para, qt
+
+
+def exec_single(qt, ss, kind, seed):
+    import quara.simulation.standard_qtomography_simulation as sim
+
+    with quiet():
         if kind == "int-arg":
             arg = int(seed)
         elif kind == "generator-mt":
@@ -1023,6 +1281,27 @@ def run_single(spec, case, tr, tes, kind, seed, init_with_seed):
         else:
             arg = None
         return sim.execute_simulation(qt, ss, seed_or_generator=arg)
+
+
+def run_single(spec, case, tr, tes, kind, seed, init_with_seed):
+    ss, para, qt = prepare_single(spec, case, tr, tes, kind, seed, init_with_seed)
+    return exec_single(qt, ss, kind, seed)
+
+
+def run_rival_single(spec, case, para, hr):
+    """a cheap run of ANOTHER setting of the same shape (same estimator case, other option values, other objects) with
+    helper objects of its own; returns its setting, whose loss / algorithm objects have then been used for the rival"""
+    import quara.simulation.standard_qtomography_simulation as sim
+
+    rspec = rival_spec(spec, hr)
+    rspec["num_data"] = list(spec["num_data"][:2])
+    rcase = draw_options({k: v for k, v in case.items() if k not in ("lw", "ao")}, hr)
+    c_sys, tr, tes = build_objects(rspec)
+    ss, _ = make_sim_setting(rspec, rcase, tr, tes, rspec["seed_data"])
+    with quiet():
+        qt = sim.generate_qtomography(ss, para=para, init_with_seed=False)
+        sim.execute_simulation(qt, ss, seed_or_generator=int(rspec["seed_qoperation"]))
+    return ss
 
 
 def run_container(spec, case, tr, tes, seed):
@@ -1049,22 +1328,67 @@ def shard_single(ctx, mon):
         spec["n_rep"] = int(rng.integers(2, 7)) if t in ("state", "povm") else int(rng.integers(2, 4))
         init_with_seed = bool(rng.random() < 0.5)
         c_sys, tr, tes = build_objects(spec)
-        ok, r1 = ctx.attempt(run_single, spec, case, tr, tes, kind, seed, init_with_seed)
+        hr = ctx.rng(2)  # history stream
+        case = draw_options(case, hr)
+        ok, prep = ctx.attempt(prepare_single, spec, case, tr, tes, kind, seed, init_with_seed)
+        ok, r1 = ctx.attempt(exec_single, prep[2], prep[0], kind, seed) if ok else (ok, prep)
         if not ok:
             ctx.truth("single.runs", False, key=f"execute_simulation:{t}:" + ctx.exc_key(r1), info={"message": str(r1)[:300]})
             continue
+        ss, para, qt = prep
+        rec1 = record_of(r1)
         ctx.truth("single.runs", True)
         ctx.nontrivial("single", t, spec["true"], spec["noise_true"], case, kind, seed, spec["n_rep"], spec["num_data"])
         if i < 1:
             ctx.sample({"kind": "single", "type": t, "true": spec["true"], "case": case, "seed_kind": kind, "seed": seed,
-                        "n_rep": spec["n_rep"], "num_data": spec["num_data"], "empi_digests": record_of(r1)["empi"]})
+                        "n_rep": spec["n_rep"], "num_data": spec["num_data"], "empi_digests": rec1["empi"]})
+        # ---- history: a rival setting of the same shape is run with the helper objects this run has used
+        okr, ss_rival = ctx.attempt(run_rival_single, spec, case, para, hr)
+        ctx.count("single_rival_runs" if okr else "single_rival_run_raised:" + type(ss_rival).__name__)
+        ctx.truth("single.repeat", record_of(r1) == rec1, key="execute_simulation:returned-result-changed-by-later-run",
+                  info={"after": "rival run"})
         if kind == "none":
             continue
-        ok, r2 = ctx.attempt(run_single, spec, case, tr, tes, kind, seed, init_with_seed)
-        if not ok:
-            ctx.violation(f"execute_simulation:repeat:{kind}:" + ctx.exc_key(r2), {})
-            continue
-        compare_records(ctx, "single.repeat", f"execute_simulation:repeat:{kind}", [record_of(r1)], [record_of(r2)])
+        # ---- the repetition: the same tomography object and a setting whose loss / algorithm objects are the ones the
+        # RIVAL has used (re-configured from this setting's own options at every estimate, as the estimator documents) and
+        # whose estimator is the used one; or the setting stored in the first result (a copy() made by the library); or a
+        # copy() of the used setting; the latter two with a tomography generated from them
+        how = ["re-used-objects", "via-stored-setting", "via-copy"][int(hr.integers(0, 3))]
+        suf = ":" + how
+
+        def again():
+            import quara.simulation.standard_qtomography_simulation as sim
+            from quara.simulation.standard_qtomography_simulation import StandardQTomographySimulationSetting
+
+            if how == "re-used-objects":
+                src = ss_rival if okr else ss
+                ss2 = StandardQTomographySimulationSetting(
+                    name=ss.name, true_object=ss.true_object, tester_objects=ss.tester_objects, estimator=ss.estimator,
+                    seed_data=ss.seed_data, n_rep=ss.n_rep, num_data=ss.num_data, schedules=ss.schedules,
+                    eps_proj_physical=ss.eps_proj_physical, eps_truncate_imaginary_part=ss.eps_truncate_imaginary_part,
+                    loss=src.loss, loss_option=ss.loss_option, algo=src.algo, algo_option=ss.algo_option)
+                return exec_single(qt, ss2, kind, seed)
+            ss2 = r1.simulation_setting if how == "via-stored-setting" else ss.copy()
+            with quiet():
+                qt2 = sim.generate_qtomography(ss2, para=para, init_with_seed=init_with_seed and ss2.seed_data is not None)
+            return exec_single(qt2, ss2, kind, seed)
+
+        ok, r2 = ctx.attempt(again)
+        rec2 = record_of(r2) if ok else None
+        if not ok or not records_equal([rec1], [rec2]):
+            # plain repetition with fresh objects: tells a history fault from plain irreproducibility
+            ok3, r3 = ctx.attempt(run_single, spec, case, tr, tes, kind, seed, init_with_seed)
+            if not ok3:
+                ctx.violation(f"execute_simulation:repeat:{kind}:" + ctx.exc_key(r3), {})
+                continue
+            if not compare_records(ctx, "single.repeat", f"execute_simulation:repeat:{kind}", [rec1], [record_of(r3)]):
+                continue
+            if not ok:
+                ctx.violation(f"execute_simulation:repeat:{kind}:" + ctx.exc_key(r2) + suf, {})
+                continue
+        compare_records(ctx, "single.repeat", f"execute_simulation:repeat:{kind}", [rec1], [rec2], suffix=suf)
+        ctx.nontrivial("single", t, spec["true"], spec["noise_true"], case, kind, seed, spec["n_rep"], spec["num_data"], how)
+        ctx.truth("single.repeat", record_of(r1) == rec1, key="execute_simulation:returned-result-changed-by-later-run")
 
 
 # -------------------------------------------------- physicality check matrix
@@ -1189,6 +1513,8 @@ def shard_phys(ctx, mon):
         spec["n_rep"] = int(rng.integers(2, 5))
         spec["eps_proj"] = float(rng.choice([1e-5, 1e-9]))
         c_sys, tr, tes = build_objects(spec)
+        hr = ctx.rng(2)  # history stream
+        cfg = draw_options(cfg, hr, p=0.4)  # non-default loss / algorithm options of the genuine runs
         genuine_cfg = cfg
         heavy = t in ("gate", "mprocess") and cfg["est"] in ("lsq", "mle")
         if heavy and i % 4 != 0:
@@ -1218,6 +1544,11 @@ def shard_phys(ctx, mon):
                 ok, out = ctx.attempt(chk.execute_physicality_violation_check, show_detail=bool(rng.random() < 0.2))
             if not ok:
                 ctx.violation(f"physicality_check:{label}:" + ctx.exc_key(out), {"results": "genuine"})
+            # the same check object asked again (the contract judges every call)
+            with quiet():
+                ok, out = ctx.attempt(chk.execute_physicality_violation_check, show_detail=bool(hr.random() < 0.5))
+            if not ok:
+                ctx.violation(f"physicality_check:{label}:" + ctx.exc_key(out) + ":second-call", {"results": "genuine"})
         # (b) overwritten results
         T = gen.type_of(tr)
         d = c_sys.dim
@@ -1252,6 +1583,12 @@ def shard_phys(ctx, mon):
                 ok, out = ctx.attempt(chk.execute_physicality_violation_check, show_detail=False)
             if not ok:
                 ctx.violation(f"physicality_check:{label}:" + ctx.exc_key(out), {"results": chk._qv_tag})
+            if hr.random() < 0.35:
+                # the same check object asked again, printing details this time (other branch of the routines)
+                with quiet():
+                    ok, out = ctx.attempt(chk.execute_physicality_violation_check, show_detail=True)
+                if not ok:
+                    ctx.violation(f"physicality_check:{label}:" + ctx.exc_key(out) + ":second-call", {"results": chk._qv_tag})
             ctx.nontrivial("phys", t, cfg, which, cls, loc, spec["n_rep"], spec["num_data"], i)
         if i < 1:
             ctx.sample({"kind": "physicality-check", "type": t, "estimator": label, "para": para, "eq_enforced": eq_on,
@@ -1295,13 +1632,37 @@ def shard_noise(ctx, mon):
         if i % 2 == 0:
             # ---- depolarised: three generators
             base = (t, name) if rng.random() < 0.6 else rand_base(t, c_sys, rng)
-            ok, o = ctx.attempt(lambda: NoiseSetting(qoperation_base=base, method="depolarized", para={"error_rate": p})
-                                .to_generation_setting(c_sys).generate())
+            hr = ctx.rng(2)  # history stream
+            p2 = float(hr.choice([0.0, 1.0, hr.random(), hr.random()]))
+            name2 = names[int(hr.integers(0, len(names)))]
+            ok, ga = ctx.attempt(lambda: NoiseSetting(qoperation_base=base, method="depolarized", para={"error_rate": p})
+                                 .to_generation_setting(c_sys))
+            ok, o = ctx.attempt(ga.generate) if ok else (ok, ga)
             if not ok:
                 ctx.violation(f"DepolarizedQOperationGenerationSetting:{t}:" + ctx.exc_key(o), {"p": p})
+            else:
+                # history: a second generation-setting object of the same class and size (other rate / base) generates in
+                # between, then the first one is asked again; the contract judges every call against its own setting
+                d0 = obj_digest(o)
+                ok, o2 = ctx.attempt(lambda: NoiseSetting(qoperation_base=(t, name2), method="depolarized", para={"error_rate": p2})
+                                     .to_generation_setting(c_sys).generate())
+                if not ok:
+                    ctx.violation(f"DepolarizedQOperationGenerationSetting:{t}:" + ctx.exc_key(o2), {"p": p2})
+                ok, o3 = ctx.attempt(ga.generate)
+                if not ok:
+                    ctx.violation(f"DepolarizedQOperationGenerationSetting:{t}:" + ctx.exc_key(o3) + ":second-call", {"p": p})
+                ctx.truth("noise.depolarized-mix", obj_digest(o) == d0,
+                          key=f"DepolarizedQOperationGenerationSetting:{t}:returned-object-changed-by-later-call")
             ok, o = ctx.attempt(qt.generate_qoperation_depolarized, mode=t, name=name, c_sys=c_sys, error_rate=p)
             if not ok:
                 ctx.violation(f"generate_qoperation_depolarized:{t}:" + ctx.exc_key(o), {"p": p})
+            else:
+                d0 = obj_digest(o)
+                ok, o2 = ctx.attempt(qt.generate_qoperation_depolarized, mode=t, name=name2, c_sys=c_sys, error_rate=p2)
+                if not ok:
+                    ctx.violation(f"generate_qoperation_depolarized:{t}:" + ctx.exc_key(o2), {"p": p2})
+                ctx.truth("noise.depolarized-mix", obj_digest(o) == d0,
+                          key=f"generate_qoperation_depolarized:{t}:returned-object-changed-by-later-call")
             if t in ("state", "povm"):
                 fn = tt.generate_tester_states_depolarized if t == "state" else tt.generate_tester_povms_depolarized
                 sub = [names[int(j)] for j in rng.integers(0, len(names), size=int(rng.integers(1, 4)))]
@@ -1335,6 +1696,27 @@ def shard_noise(ctx, mon):
                       key=f"RandomEffectiveLindbladianGenerationSetting:{t}:same-int-seed-different-object")
             ctx.truth("noise.lindbladian-reproducible", obj_digest(o2[0]) == obj_digest(o4[0]),
                       key=f"RandomEffectiveLindbladianGenerationSetting:{t}:same-generator-state-different-object")
+            # history: another setting object of the same class and size generates in between; then a FRESH setting object
+            # with the first one's parameters, and the used one, are asked with the same seed again
+            hr = ctx.rng(2)
+            d1 = obj_digest(o1[0])
+            mk = lambda nm, a, b: NoiseSetting(qoperation_base=(t, nm), method="random_effective_lindbladian",  # noqa: E731
+                                               para={"lindbladian_base": "identity", "strength_h_part": a, "strength_k_part": b}
+                                               ).to_generation_setting(c_sys)
+            okr, orv = ctx.attempt(lambda: mk(names[int(hr.integers(0, len(names)))], float(10 ** hr.uniform(-3, 0)),
+                                              float(10 ** hr.uniform(-3, 0))).generate(pick_seed(hr)))
+            ctx.count("lindbladian_rival_generated" if okr else "lindbladian_rival_raised:" + type(orv).__name__)
+            ok5, o5 = ctx.attempt(lambda: mk(name, sh, sk).generate(seed))
+            ok6, o6 = ctx.attempt(g.generate, seed)
+            for ok_, o_, how in ((ok5, o5, "fresh-setting-object"), (ok6, o6, "re-used-object")):
+                if not ok_:
+                    ctx.violation(f"RandomEffectiveLindbladianGenerationSetting:{t}:" + ctx.exc_key(o_) + f":{how}-after-other-setting",
+                                  {"sh": sh, "sk": sk})
+                    continue
+                ctx.truth("noise.lindbladian-reproducible", obj_digest(o_[0]) == d1,
+                          key=f"RandomEffectiveLindbladianGenerationSetting:{t}:same-int-seed-different-object:{how}-after-other-setting")
+            ctx.truth("noise.lindbladian-reproducible", obj_digest(o1[0]) == d1,
+                      key=f"RandomEffectiveLindbladianGenerationSetting:{t}:returned-object-changed-by-later-call")
             ctx.nontrivial("rl", t, shape, name, sh, sk, seed)
             if i < 2:
                 ctx.sample({"kind": "noise-lindbladian", "type": t, "shape": shape, "base": name, "strength_h": sh, "strength_k": sk,
